@@ -80,7 +80,9 @@ def _tlc(module, cfg, workers, extra_env=None, extra_args=(), timeout=3600, dfs=
     env = dict(os.environ, JAVA_TOOL_OPTIONS=jopts)
     if extra_env:
         env.update(extra_env)
-    cmd = ["tlc", "-workers", str(workers), "-metadir", md, "-cleanup", "-noGenerateSpecTE"]
+    # -checkpoint 0: no periodic checkpoints (the depth-first queue of the trace specs does not support them, and a
+    # run of more than 30 minutes would end with an exception)
+    cmd = ["tlc", "-workers", str(workers), "-metadir", md, "-cleanup", "-noGenerateSpecTE", "-checkpoint", "0"]
     if simulate:
         cmd += ["-simulate", simulate, "-depth", "400", "-seed", str(os.environ.get("VERIF_SEED") or 1)]
     cmd += list(extra_args)
